@@ -46,6 +46,8 @@ var propConfigs = map[string]propConfig{
 	"C11": {Gen: true},
 	"C18": {Gen: true},
 	"C16": {},
+	"C02": {Gen: true, Bounded: []boundedCheck{{Name: "independent-parse", Run: "TestBoundedC02", Module: true,
+		Bound: "two struct shapes (Rec: required/optional/repeated columns of every physical type and one repeated group; Deep: groups nested three levels, the same group name under two parents, a repeated group inside a repeated group, fully required nesting), 11 Add/Write histories (Rec) and 6 batch partitions (Deep), page sizes 1,2,3,4,5,8,1000, three codecs: every file parsed by an independent checker (schema tree walked by num_children against the expected leaves with path, type, converted type and repetition; chunks one to one with the leaves in order; offsets contiguous from byte 4 to the footer; every page decompressed, level sections decoded with an own RLE/bit-packing decoder, value sections measured by type; header sizes, value counts, chunk totals, row counts, records per page <= page size, pages starting at record boundaries; footer length word and both magics)"}}},
 	"C06": {Gen: true, Bounded: []boundedCheck{{Name: "history-enumeration", Run: "TestBoundedC06", Module: true,
 		Bound: "every history over {Add, Write} of length <= 7 (gzip: <= 5) ended by Close, page sizes 1..3, three codecs, plus 7 longer shapes (page-size multiples followed by empty Writes, records pending at Close) at page sizes 1..4: footer row groups/NumRows/offsets/sizes parsed independently and compared with a list-of-batches model, every chunk walked page by page, records read back and compared, files with and without empty Writes compared byte for byte"}}},
 	"C13": {Gen: true, Bounded: []boundedCheck{{Name: "race-detector", Run: "TestBoundedC13", Module: true, Race: true,
